@@ -1070,7 +1070,7 @@ static ConstQueryFilterRef CreateQueryFilterFromExpressionAux(Lexer & lexer, con
          const LexerToken & fieldNameTok = localToks[1];
          MRETURN_ON_ERROR(fieldNameTok.ParseFieldName(fieldName, valueIndexInField, NULL));
 
-         return MaybeNegate(isNegated, sef.CreateSubexpression(fieldNameTok, valueIndexInField, firstTok, LexerToken(), explicitCastType, LexerToken(), true));
+         return MaybeNegate(isNegated, sef.CreateSubexpression(LexerToken(fieldName, fieldNameTok.WasQuoted()), valueIndexInField, firstTok, LexerToken(), explicitCastType, LexerToken(), true));  // pass the bare field name; the index is passed separately
       }
       break;
 
@@ -1088,7 +1088,7 @@ static ConstQueryFilterRef CreateQueryFilterFromExpressionAux(Lexer & lexer, con
          const uint32 valueType = valTok.GetValueStringType(explicitCastType);
          if (valueType == B_ANY_TYPE) return B_ERROR("Unable to determine type of value-token at end of subexpression");
 
-         return MaybeNegate(isNegated, sef.CreateSubexpression(fieldNameTok, valueIndexInField, infixOpTok, valTok, valueType, optDefaultValue, true));
+         return MaybeNegate(isNegated, sef.CreateSubexpression((fieldNameTok.GetToken() == LTOKEN_WHAT) ? fieldNameTok : LexerToken(fieldName, fieldNameTok.WasQuoted()), valueIndexInField, infixOpTok, valTok, valueType, optDefaultValue, true));  // pass the bare field name; the index and default value are passed separately
       }
    }
 
